@@ -6,6 +6,9 @@ import json, os, shutil, sys, subprocess
 
 VERIF = os.path.dirname(os.path.dirname(os.path.abspath(__file__)))
 SRC = "/tmp/seeded_out"
+OUT_OF_SCOPE = {
+    "C07_5": "breaks MultivariateModel.conditional_sample for models with >= 3 variables; C07 is about draw_sample, C16 about 2-D transformed models",
+}
 res = {}
 for f in sys.argv[1:]:
     for r in json.load(open(f)):
@@ -34,6 +37,8 @@ for name in sorted(res):
         notes = open(np_).read()
         shutil.copy(np_, os.path.join(d, "notes.md"))
     verdict = {0: "missed", 1: "detected", 2: "undecided", 3: "checker-error"}.get(r.get("check_rc"), str(r.get("check_rc")))
+    if name in OUT_OF_SCOPE and verdict == "missed":
+        verdict = "missed (out of scope: " + OUT_OF_SCOPE[name] + ")"
     lines = [l for l in r.get("check_lines", []) if l.startswith("VIOLATION")]
     by = []
     for l in lines:
@@ -60,6 +65,7 @@ with open(os.path.join(VERIF, "seeded", "MATRIX.md"), "w") as f:
     for n, v, by, s in rows:
         f.write(f"| {n} | {v} | {by} | {s} |\n")
     k = sum(1 for r in rows if r[1] == "detected")
+    
     kept = sum(1 for r in rows if r[1] != "not kept")
     f.write(f"\n{k} of {kept} kept changes detected (exit 1 with a VIOLATION line).\n")
 print(open(os.path.join(VERIF, "seeded", "MATRIX.md")).read()[-600:])
